@@ -369,6 +369,45 @@ pub fn plan_from_payload(g: &mut G, payload: Vec<u8>, mut headers: Vec<(String, 
 }
 
 impl BodyPlan {
+    /// One more field line right after the status line; every recorded offset moves with it.  The caller
+    /// re-derives segmentation and script from the new wire.
+    pub fn insert_head_field(&mut self, name: &str, value: &str) {
+        let line = format!("{}: {}\r\n", name, value).into_bytes();
+        let at = self.wire.bytes.iter().position(|b| *b == b'\n').map(|p| p + 1).unwrap_or(0);
+        let n = line.len();
+        self.wire.bytes.splice(at..at, line);
+        self.wire.head_len += n;
+        self.wire.frame_end += n;
+        for t in self.wire.targets.iter_mut() {
+            if *t >= at {
+                *t += n;
+            }
+        }
+        for c in self.wire.chunk_map.iter_mut() {
+            c.0 += n;
+            c.1 += n;
+            c.2 += n;
+        }
+        for r in self.wire.framing_ranges.iter_mut() {
+            r.0 += n;
+            r.1 += n;
+        }
+        self.extra_headers.insert(0, (name.to_string(), value.as_bytes().to_vec()));
+        // the script delivers the same segments, the one that holds the end of the status line grown by the line
+        let line = format!("{}: {}\r\n", name, value).into_bytes();
+        let mut off = 0usize;
+        for a in self.script.acts.iter_mut() {
+            if let Act::Send(d) = a {
+                if at > off && at <= off + d.len() {
+                    let p = at - off;
+                    d.splice(p..p, line.iter().copied());
+                    break;
+                }
+                off += d.len();
+            }
+        }
+    }
+
     /// Re-encode a chunked body with a bare LF after every chunk's data (and, for every second chunk, after
     /// its size line): same payload, same chunking.  Lenient readers take it, strict ones refuse it; the
     /// caller re-derives segmentation and script from the new wire.
